@@ -40,9 +40,9 @@
   'claims':'CmapSubtable12NextCodepoint, second half of the contract (same function and preconditions as c13_next12; the safety checks are discharged there): no code point of any group lies strictly between the previous and the returned code point, and the returned key is the only group containing the returned code point, given the groups are ordered at the index pairs involved - the iteration that fills the cache skips no mapped character'}@*/
 /*@unit {'name':'c13_next12', 'props':['C13','C01'], 'entry':'h_next12', 'enforce':'CmapSubtable12NextCodepoint', 'min_loops':2, 'backend':'cadical', 'cost':100,
   'claims':'CmapSubtable12NextCodepoint on any well-formed format 12 subtable (exact-size buffer), any previous code point, any range key in [0,numGroups): reads inside the subtable, writes only *pRangeKey, both scans terminate; the new key is in [0,numGroups] and equals numGroups only together with the end marker 0x10FFFF; the returned code point lies in group key (unless that group is empty), is larger than the previous one (unless two groups overlap)'}@*/
-/*@unit {'name':'c13_step4', 'props':['C13'], 'entry':'h_step4', 'backend':'cadical', 'no_checks':['--bounds-check','--pointer-check','--div-by-zero-check','--signed-overflow-check','--undefined-shift-check','--pointer-primitive-check'], 'replace':['CmapSubtable4NextCodepoint','CmapSubtable4Lookup'],
+/*@unit {'name':'c13_step4', 'props':['C13'], 'entry':'h_step4', 'backend':'cvc5', 'no_checks':['--bounds-check','--pointer-check','--div-by-zero-check','--signed-overflow-check','--undefined-shift-check','--pointer-primitive-check'], 'replace':['CmapSubtable4NextCodepoint','CmapSubtable4Lookup'],
   'claims':'per-step lemma over the contracts (format 4): for the code point c and key produced by CmapSubtable4NextCodepoint, the hinted lookup Lookup(c,key) that fills the cache equals the full lookup Lookup(c,0) of the direct path, given the segments are ordered at the index pairs involved'}@*/
-/*@unit {'name':'c13_step12', 'props':['C13'], 'entry':'h_step12', 'backend':'cadical', 'cost':100, 'no_checks':['--bounds-check','--pointer-check','--div-by-zero-check','--signed-overflow-check','--undefined-shift-check','--pointer-primitive-check'], 'replace':['CmapSubtable12NextCodepoint','CmapSubtable12Lookup'],
+/*@unit {'name':'c13_step12', 'props':['C13'], 'entry':'h_step12', 'backend':'cvc5', 'cost':100, 'no_checks':['--bounds-check','--pointer-check','--div-by-zero-check','--signed-overflow-check','--undefined-shift-check','--pointer-primitive-check'], 'replace':['CmapSubtable12NextCodepoint','CmapSubtable12Lookup'],
   'claims':'per-step lemma over the contracts (format 12): Lookup(c,key) == Lookup(c,0) for the code point and key produced by CmapSubtable12NextCodepoint, given no earlier group contains c (groups ordered at the pair involved)'}@*/
 /*@unit {'name':'c13_direct', 'props':['C13'], 'entry':'h_direct', 'enforce':'DirectCmap_lookup', 'replace':['CmapSubtable4Lookup','CmapSubtable12Lookup'],
   'claims':'DirectCmap::operator[]: plane split - code points above U+FFFF are answered by the format 12 subtable (0 if the face has none), all others by the format 4 subtable; the preconditions of both lookups hold at the call sites (subtables validated by bmp_subtable/smp_subtable, key 0); nothing is written'}@*/
@@ -50,17 +50,17 @@
   'claims':'bmp_subtable / smp_subtable: the subtable chosen is the first one, in the order (3,1),(0,3),(0,2),(0,1),(0,0) resp. (3,10),(0,4) of (platform, encoding), that exists and passes CheckCmapSubtable4 resp. 12 against the end of the cmap table; NULL if there is none or the table is empty; a non-NULL result has passed its check'}@*/
 /*@unit {'name':'c13_cached_get', 'props':['C13','C01'], 'entry':'h_cached_get', 'enforce':'CachedCmap_lookup',
   'claims':'CachedCmap::operator[] for every 32-bit usv: the block index is below the number of allocated block pointers (0x100 when BMP only, else 0x1100), the entry index below 0x100; returns m_blocks[usv>>8][usv&0xFF], 0 for an absent block, for usv > 0x10FFFF and for usv > 0xFFFF when BMP only; nothing is written'}@*/
-/*@unit {'name':'c13_fill4', 'props':['C13','C01'], 'entry':'h_fill', 'enforce':'cache_subtable', 'min_loops':1, 'defines':['FMT=4','ASSUME_SORTED'], 'backend':'cadical', 'cost':80,
+/*@unit {'name':'c13_fill4', 'props':['C13','C01'], 'entry':'h_fill', 'enforce':'cache_subtable', 'min_loops':1, 'defines':['FMT=4','ASSUME_SORTED'], 'backend':'cvc5', 'cost':80,
   'replace':['CmapSubtable4NextCodepoint','CmapSubtable4Lookup','cache_has_block','cache_alloc_block','cache_store'],
   'claims':'cache_subtable<format 4> over the proved contracts of NextCodepoint/Lookup: every block index used is below 0x100, a store only goes into a present block, the loop terminates (also for unordered tables: prevCodePoint strictly increases); for an ordered table every code point g_x != U+0001 below the limit that lies in a segment is stored with the value GID4(segment, g_x) = the direct lookup, and only code points of segments are stored (the rest of the zero-filled cache means unmapped)'}@*/
-/*@unit {'name':'c13_fill4_cover', 'props':['C13'], 'entry':'h_fill', 'enforce':'cache_subtable', 'min_loops':1, 'defines':['FMT=4','ASSUME_SORTED','COVER_ONE'], 'backend':'cadical', 'cost':80,
+/*@unit {'name':'c13_fill4_cover', 'props':['C13'], 'entry':'h_fill', 'enforce':'cache_subtable', 'min_loops':1, 'defines':['FMT=4','ASSUME_SORTED','COVER_ONE'], 'backend':'cvc5', 'cost':80,
   'replace':['CmapSubtable4NextCodepoint','CmapSubtable4Lookup','cache_has_block','cache_alloc_block','cache_store'],
   'replay':'c13_cmap', 'witness_defines':['FMT=4','ASSUME_SORTED','COVER_ONE'], 'witness_vars':['w_none'],
   'claims':'the same coverage clause for the code point U+0001 (fails on a tree where cache_subtable skips U+0001 after caching U+0000)'}@*/
-/*@unit {'name':'c13_fill12', 'props':['C13','C01'], 'entry':'h_fill', 'enforce':'cache_subtable', 'min_loops':1, 'defines':['FMT=12','ASSUME_SORTED'], 'backend':'cadical', 'cost':80,
+/*@unit {'name':'c13_fill12', 'props':['C13','C01'], 'entry':'h_fill', 'enforce':'cache_subtable', 'min_loops':1, 'defines':['FMT=12','ASSUME_SORTED'], 'backend':'cvc5', 'cost':80,
   'replace':['CmapSubtable12NextCodepoint','CmapSubtable12Lookup','cache_has_block','cache_alloc_block','cache_store'],
   'claims':'cache_subtable<format 12> over the proved contracts: every block index used is below 0x1100, a store only goes into a present block, the loop terminates; for ordered groups every code point g_x != U+0001 below the limit that lies in a group is stored with its format 12 glyph, and only code points of groups are stored'}@*/
-/*@unit {'name':'c13_fill12_cover', 'props':['C13'], 'entry':'h_fill', 'enforce':'cache_subtable', 'min_loops':1, 'defines':['FMT=12','ASSUME_SORTED','COVER_ONE'], 'backend':'cadical', 'cost':80,
+/*@unit {'name':'c13_fill12_cover', 'props':['C13'], 'entry':'h_fill', 'enforce':'cache_subtable', 'min_loops':1, 'defines':['FMT=12','ASSUME_SORTED','COVER_ONE'], 'backend':'cvc5', 'cost':80,
   'replace':['CmapSubtable12NextCodepoint','CmapSubtable12Lookup','cache_has_block','cache_alloc_block','cache_store'],
   'replay':'c13_cmap', 'witness_defines':['FMT=12','ASSUME_SORTED','COVER_ONE'], 'witness_vars':['w_none'],
   'claims':'the same coverage clause for the code point U+0001, format 12'}@*/
